@@ -160,6 +160,34 @@ def grid_polygon(meta=True, max_vertices=8):
                        shape_kind='grid'))
 
 
+INT_TEMPLATES = [
+    [(0, 0), (4, 0), (0, 3)],
+    [(0, 0), (5, 0), (5, 4), (0, 4)],
+    [(0, 0), (6, 0), (6, 4), (3, 7), (0, 4)],
+    [(0, 0), (4, 1), (6, 5), (2, 6), (-1, 3)],
+    [(0, 0), (6, 0), (6, 2), (2, 2), (2, 6), (0, 6)],       # L shape
+    [(1, 0), (3, 2), (5, 0), (6, 1), (4, 3), (6, 5), (5, 6), (3, 4), (1, 6),
+     (0, 5), (2, 3), (0, 1)],                               # X shape
+]
+
+
+def int_polygon(meta=True):
+    """Simple polygons whose vertices are whole numbers held in an INTEGER
+    array (what PixCoord([10, 40, 25], [10, 10, 30]) gives)."""
+    def mk(t):
+        d, tpl, k, sx, sy, rev = t
+        pts = [(k * x + sx, k * y + sy) for x, y in INT_TEMPLATES[tpl]]
+        if rev:
+            pts = pts[::-1]
+        return dict(d, vertices=[[float(p[0]) for p in pts],
+                                 [float(p[1]) for p in pts]],
+                    shape_kind='int', num='int' if k % 2 else 'np.int64')
+    return st.tuples(_with_common({'cls': st.just('PolygonPixelRegion')}, meta),
+                     st.integers(0, len(INT_TEMPLATES) - 1),
+                     st.integers(1, 12), st.integers(-60, 60),
+                     st.integers(-60, 60), st.booleans()).map(mk)
+
+
 def regular_polygon(sz, cmode='any', meta=True, max_vertices=12):
     return _with_common({'cls': st.just('RegularPolygonPixelRegion'),
                          'center': centers(cmode),
@@ -218,6 +246,7 @@ def maskable(sz, cmode='any', meta=True, max_ratio=100.0, annuli=True,
                                              max_ratio=max_ratio),
              rectangle(sz, cmode, meta, max_ratio),
              polygon(sz, cmode, meta, max_vertices),
+             int_polygon(meta),
              regular_polygon(sz, cmode, meta, max_vertices)]
     if annuli:
         parts += [circle_annulus(sz, cmode, meta),
